@@ -169,6 +169,24 @@ EDITS = [
             collected[name].append(value)
     return collected
 """)], ["C10"], "collect_as_lists: a temporary introduced inside the inner loop"),
+    ("B19", H, [("""    for name in node.wait_for:
+        if name not in state.values:
+            return False
+        # On re-execution, check freshness
+        if last_exec is not None:
+            current_version = state.get_version(name)
+            consumed_version = last_exec.wait_for_versions.get(name, 0)
+            if current_version <= consumed_version:
+                return False
+    return True
+""", """    if any(name not in state.values for name in node.wait_for):
+        return False
+    if last_exec is None:
+        return True
+    # On re-execution, check freshness
+    consumed = last_exec.wait_for_versions
+    return all(state.get_version(name) > consumed.get(name, 0) for name in node.wait_for)
+""")], ["C17"], "_wait_for_satisfied: loop -> two comprehensions (the CORRECT twin of seeded change C17-F)"),
     ("B18", "graph/validation.py", None, ["C19"], "placeholder (filled below)"),
     ("B14", "graph/validation.py", None, ["C19"], "placeholder (filled below)"),
 ]
